@@ -31,8 +31,9 @@ LEVEL_TEXT = (
     "dominance is a partial order on reachable nodes whose dominator sets are chains, every reachable non-entry node has a unique idom. "
     "About the models of the code: the fixed-point post-dominator sets equal path-defined post-dominance for every exit "
     "(and the loop terminates within n^2+2 rounds), immediate-post-dominator selection returns the path-defined one, "
-    "calculate_reach equals the transitive closure (>= 1 edge); given the idom map is the path-defined one, the interval test of "
-    "the numbered dominator tree decides (strict) dominance and Cytron's bottom-up computation yields exactly the dominance frontier. "
+    "calculate_reach equals the transitive closure (>= 1 edge) and terminates; given the idom map is the path-defined one, the worklist "
+    "numbering of the dominator tree terminates and its interval tests below_or_same/below decide dominance/strict dominance on all "
+    "reachable nodes, and (all nodes reachable) the bottom_up + Cytron computation yields exactly the path-defined dominance frontier. "
     "Lengauer-Tarjan itself is NOT proved: it is covered as a verified validator (checkIdom_sound: an accepted idom map is the "
     "path-defined immediate-dominator map), run on every real output."
 )
@@ -45,7 +46,7 @@ LEVEL_NOTE = (
 TECHNIQUE = ("Lean 4 proofs about path-based graph definitions and hand models of the fixed-point/numbering/frontier code; "
              "verified validator for Lengauer-Tarjan outputs; differential correspondence on real ControlFlowGraph objects")
 RULE = ("cases = real ControlFlowGraph objects: every labelled digraph with entry 0 whose nodes are all reachable, n <= 4 with "
-        "self-loops (both tiers) and n = 5 without self-loops (thorough; quick samples them with odd strides), each also reversed for the post-dominator side "
+        "self-loops and n = 5 without self-loops (thorough; quick: n <= 3 complete, n = 4 every 3rd edge set, n = 5 sampled, odd strides), each also reversed for the post-dominator side "
         "(exit 0); random tree+extra-edge graphs, structured (reducible) CFGs, chains/ladders with back and cross edges, dense graphs, "
         "IR procedures through CfgInfo, up to 200 nodes. distinct = distinct (kind, n, edge set, entry/exit); non-trivial = some node's "
         "idom differs from its DFS parent (Lengauer-Tarjan had to use semidominators/buckets) or a non-empty dominance frontier, "
@@ -244,6 +245,9 @@ def native_driver():
     (the interpreted driver is used then)."""
     import fcntl
     exe = common.LEAN / ".lake" / "build" / "c25" / "driver"
+    srcs = [common.module_path(m) for m in NATIVE_MODS]
+    if exe.exists() and all(p.exists() and p.stat().st_mtime < exe.stat().st_mtime for p in srcs):
+        return str(exe)          # up to date w.r.t. every source module it is made of (they import nothing else)
     lock = open(common.LEAN / ".build.lock", "w")
     fcntl.flock(lock, fcntl.LOCK_EX)
     try:
@@ -756,6 +760,7 @@ def check(ctx, only=None):
     env = dict(lean_env())
     t0 = time.time()
     exe = None if os.environ.get("C25_INTERPRETED") else native_driver()
+    ctx.extra_cov["t_native_build_s"] = round(time.time() - t0, 1)
     if exe:
         env["C25_NATIVE"] = exe
         # the native executable and the interpreted driver (`lean --run`, the documented route) must agree
@@ -768,6 +773,7 @@ def check(ctx, only=None):
                 probe.append(f"P {len(nodes)} {idx[g.exit_node]} {rows(succ)}")
         if drive(probe, env) != ctx.driver("C25", probe):
             raise common.BrokenCheck("native and interpreted C25 driver disagree")
+        ctx.extra_cov["t_probe_s"] = round(time.time() - t0, 1)
         ctx.extra_cov["driver"] = "native executable compiled from Drivers/C25.lean (lake :o facets + leanc); cross-checked against `lean --run` on the corpus"
     else:
         ctx.extra_cov["driver"] = "interpreted (`lean --run Drivers/C25.lean`)"
@@ -787,8 +793,11 @@ def check(ctx, only=None):
                 st = 9973 + 2 * ctx.rng.randrange(500)
                 jobs.append(((1 << 25) // st, [("enum", 5, True, ctx.rng.randrange(997), 1 << 25, st)]))
         else:
+            # 4 nodes incl. self-loops: 2^16 edge sets; quick takes every 3rd (seed-dependent residue; an odd stride,
+            # so that no edge bit is pinned), the thorough tier all of them
+            off = ctx.rng.randrange(3)
             for lo in range(0, 1 << 16, 1 << 12):
-                jobs.append((4096, [("enum", 4, True, lo, lo + (1 << 12), 1)]))
+                jobs.append((1366, [("enum", 4, True, lo + (off - lo) % 3, lo + (1 << 12), 3)]))
             for _ in range(8):
                 st = 1009 + 2 * ctx.rng.randrange(100)
                 jobs.append(((1 << 20) // st, [("enum", 5, False, ctx.rng.randrange(499), 1 << 20, st)]))
@@ -821,10 +830,10 @@ def check(ctx, only=None):
         ctx.fail(f.pop("signature"), f.pop("what"), f.pop("case"), **f)
     for d in sorted(dis, key=lambda d: Res.size(d["case"]))[:200]:
         ctx.disagree(d["what"], d["case"], d["impl"], d["model"])
-    ctx.extra_cov["exhaustive"] = only is None
+    ctx.extra_cov["exhaustive"] = bool(ctx.thorough) and only is None
     ctx.extra_cov["exhaustive_domain"] = (
         "all labelled digraphs with entry 0 and all nodes reachable: n<=4 incl. self-loops and n=5 without self-loops (thorough); "
-        "n<=4 complete incl. self-loops, n=5 sampled with odd strides (quick); each also reversed with exit 0 for the post-dominator side")
+        "n<=3 complete, n=4 every 3rd edge set, n=5 sampled with odd strides (quick); each also reversed with exit 0 for the post-dominator side")
     ctx.extra_cov["lean_validator"] = "Spec.Graph.checkIdom accepted %d / %d real Lengauer-Tarjan outputs" % (
         ctx.counts.get("validator_accepts", 0), ctx.counts.get("validator_accepts", 0) + ctx.counts.get("validator_rejects", 0))
     ctx.extra_cov["check_wall_s"] = round(time.time() - t0, 1)
